@@ -271,11 +271,36 @@ def model_json_print(cx, docs, ctxlines, component):
         # the independent RFC 8259 document reader of the Lean side (JsonTree/Doc.lean, what Props.C12.json_document_faithful is
         # about) on libyang's real output and on damaged copies of it: must agree with Python's json (acceptance and content)
         pj0 = unhex(r[1])
+        # trees with metadata included: the state-free RFC 7951/7952 expectation jsonViewM (JsonTree/MetaView.lean) of the view against
+        # the independent reader's result on libyang's own bytes - every annotation on the right instance
+        reqs.append("j%d jsontree jcheck %s %s" % (len(back), r[2], hexs(pj0)))
         reqs.append("p%d jsontree docparse %s" % (len(back), hexs(pj0)))
         bad = damage_json(cx, pj0, len(back))
         reqs.append("q%d jsontree docparse %s" % (len(back), hexs(bad)))
         back.append((doc, wd, pj0, r[2], bad))
     rm = cx.run_model(reqs) if reqs else {}
+    nj = njm = njok = 0
+    for i, (doc, wd, pj, view, bad) in enumerate(back):
+        jr = rm.get("j%d" % i, ["err", "NoReply"])
+        if jr[:2] == ["err", "Unsupported"]:
+            pass
+        elif jr[0] != "ok" or len(jr) < 5:
+            cx.disagree(component + "-jsonmeta", ("j%d jsontree jcheck %s %s" % (i, view, hexs(pj)))[:6000], ["ok"], jr[:3])
+        else:
+            hyp, hasm, same, read = jr[1:5]
+            nj += 1; njm += hasm == "1"
+            cx.count(None, False, component + ":jsonmeta:hyp=%s:metadata=%s:reader on libyang's bytes %s" % (
+                hyp, hasm, {"1": "= jsonViewM", "0": "DIFFERENT", "x": "NOT JSON"}.get(read, read)))
+            if hyp == "1":
+                if read == "1":
+                    njok += 1
+                else:
+                    # the expectation is a specification: a difference is a wrong attachment / layout in the output (or a wrong spec)
+                    cx.disagree(component + "-jsonmeta", ("j%d jsontree jcheck %s %s" % (i, view, hexs(pj)))[:6000], ["ok", "reader(libyang) = jsonViewM"], jr[:5])
+    if nj:
+        cx.rule(component + " jsonmeta: %d JSON views (%d with metadata objects / leaf-list metadata arrays): the independent RFC 8259 reader applied to "
+                "libyang's own bytes = the state-free RFC 7951/7952 expectation jsonViewM of the view for %d of them (hypotheses jmetaOk evaluated "
+                "by the driver); annotations sit on the right instance by array index" % (nj, njm, njok))
     for i, (doc, wd, pj, view, bad) in enumerate(back):
         for tag, text in (("p", pj), ("q", bad)):
             mine = rm.get("%s%d" % (tag, i), ["err", "NoReply"])
